@@ -252,6 +252,16 @@ def h_cross_frame(B, op="rotator", alpha=1.0):
         M.rotate_cross(model, n_modes=2, power=1)
     elif op == "transform":
         model.transform(da2d(B, "xn", 2, 2, feat="x", scoords=[100, 101]), da2d(B, "yn", 2, 2, feat="y", scoords=[100, 101]))
+    elif op == "queries":
+        # every accessor with default and non-default flags, and every metric
+        model.scores(); model.scores(normalized=True); model.components(); model.components(normalized=False)
+        for mname in ("squared_covariance_fraction", "cross_correlation_coefficients", "correlation_coefficients_X", "correlation_coefficients_Y", "fraction_variance_X_explained_by_X", "fraction_variance_Y_explained_by_Y", "fraction_variance_Y_explained_by_X"):
+            try:
+                getattr(model, mname)()
+            except (NotImplementedError, ValueError):
+                pass
+        model.transform(X, Y, normalized=True)
+        model.inverse_transform(*model.scores())
     B.covers("CPCCARotator.fit side effects")
     after = {"scores1": model.scores()[0], "scores2": model.scores()[1], "components1": model.components()[0], "sv": model.data["singular_values"]}
     for k in before:
@@ -321,5 +331,7 @@ def configs(tier):
     out.append(cfgp)
     add("h_cross_frame", "cross|frame|rotator", op="rotator")
     add("h_cross_frame", "cross|frame|transform", op="transform", alpha=0.5)
+    add("h_cross_frame", "cross|frame|queries", op="queries", alpha=0.5)
+    add("h_cross_frame", "cross|frame|queries|MCA", op="queries", alpha=1.0)
     add("h_cross_refit", "cross|refit", alpha=0.5)
     return out
